@@ -241,7 +241,7 @@ func c05(c *Ctx) {
 				r, w := cfgx.ReachesAvoidingBlocks(union(invalidTrue, failEdges(cr)), h, through, nil, c.posf())
 				c.R.Check(!r, load.FuncName(pt)+": invalid arm nils cds[i]", c.pos(cr.Pos()), "the continuing IsInvalid arm stores nil into cds[i]", "the IsInvalid arm continues without clearing cds[i]: the rejected resource is later observed and reported Synced", w...)
 				// the applied object is cds[i]
-				c.R.Check(flow.Strict.Any(cfgx.CallArgs(cr)[1], func(v ssa.Value) bool { ia, ok := v.(*ssa.IndexAddr); return ok && ia.X == cdsSlice }), site(cr)+" applies cds[i]", c.pos(cr.Pos()), "the object applied is cds[i]", "the object applied is not the slot that is later observed")
+				c.R.Check(flow.Strict.Any(cfgx.CallArgs(cr)[1], func(v ssa.Value) bool { ia, ok := v.(*ssa.IndexAddr); return ok && sole(ia.X) == sole(cdsSlice) }), site(cr)+" applies cds[i]", c.pos(cr.Pos()), "the object applied is cds[i]", "the object applied is not the slot that is later observed")
 			}
 			// third loop: resources[i] literals
 			nilEdges, nonNilEdges := nilTestsOfSlot(pt, cdsSlice)
@@ -290,7 +290,9 @@ func c05(c *Ctx) {
 				}
 				if len(obsNil) > 0 {
 					l := cfgx.LoopOf(obsNil[0].From)
-					r, w := cfgx.ReachesAvoidingBlocks(obsNil, cfgx.LoopHeader(l), thr, nil, c.posf())
+					// no iteration of the observe loop ends without a record having been stored
+					// (before or after the nil test)
+					r, w := cfgx.LoopBypass(l, thr, nil, c.posf())
 					c.R.Check(!r, load.FuncName(pt)+": every template gets a record", c.pos(firstPos(obsNil[0].From)), "a nil slot still produces a (not ready, not synced) record", "a nil slot produces no record: the XR would not see the resource as unready/unsynced", w...)
 				}
 			}
@@ -613,7 +615,7 @@ func nilTestsOfSlot(fn *ssa.Function, slice ssa.Value) (isNil, notNil []cfgx.Edg
 			} else {
 				continue
 			}
-			if !flow.Strict.Any(other, func(v ssa.Value) bool { ia, ok := v.(*ssa.IndexAddr); return ok && ia.X == slice }) {
+			if !flow.Strict.Any(other, func(v ssa.Value) bool { ia, ok := v.(*ssa.IndexAddr); return ok && sole(ia.X) == sole(slice) }) {
 				continue
 			}
 			t, f := cfgx.CondEdges(bo)
